@@ -36,10 +36,11 @@ import numpy as np
 
 MAXDEN = 6
 FLAVOURS = [(c, t) for c in ('list', 'array') for t in ('int', 'str')]
-OKEYS = ('obs', 'cond', 'sess', 'time', 'phase', 'bins', 'flag', 'mark')
-CKEYS = ('chan', 'roi', 'time', 'phase', 'bins')
-TKEYS = ('time', 'phase', 'bins')
-DKEYS = ('obs', 'cond', 'sess', 'time', 'phase', 'bins', 'flag', 'mark', 'chan', 'roi')
+OKEYS = ('obs', 'cond', 'sess', 'time', 'lat', 'phase', 'bins', 'flag', 'mark')
+CKEYS = ('chan', 'roi', 'time', 'lat', 'phase', 'bins')
+TKEYS = ('time', 'lat', 'phase', 'bins')
+RATKEYS = ('time', 'lat')        # numeric time descriptors (rational values)
+DKEYS = ('obs', 'cond', 'sess', 'time', 'lat', 'phase', 'bins', 'flag', 'mark', 'chan', 'roi')
 INTKEYS = ('obs', 'cond', 'sess', 'chan', 'roi', 'phase', 'flag', 'mark')
 MISSKEYS = ('flag', 'mark')
 MISSING = -1
@@ -121,6 +122,15 @@ def _tl_time(tl):
     return Fraction(sum(w[t] * (t + 1) for t in range(len(w))), d)
 
 
+def lat(t):
+    return (t - 2) * (t - 2)
+
+
+def _tl_lat(tl):
+    w, d, _b, _ph = tl
+    return Fraction(sum(w[t] * lat(t + 1) for t in range(len(w))), d)
+
+
 def _tl_tok(tl):
     w, d, _b, _ph = tl
     return Fraction(sum(w[t] * 2 ** t for t in range(len(w))), d)
@@ -131,6 +141,8 @@ def _tlval(tl, k):
         return absent(k)
     if k == 'time':
         return q(_tl_time(tl))
+    if k == 'lat':
+        return q(_tl_lat(tl))
     if k == 'phase':
         return tl[3]
     return [list(x) for x in tl[2]]
@@ -179,7 +191,7 @@ def expected(strip):
     rows, cols, tims = strip['rows'], strip['cols'], strip['tims']
     dd = {k: absent(k) for k in DKEYS}
     for k, v in strip['dd']:
-        dd[k] = [list(x) for x in v] if k == 'bins' else (list(v) if k == 'time' else v)
+        dd[k] = [list(x) for x in v] if k == 'bins' else (list(v) if k in RATKEYS else v)
     return {'kind': strip['kind'],
             'od': {k: ([_rowval(r, k) for r in rows] if k in strip['okeys'] else []) for k in OKEYS},
             'cd': {k: ([_colval(c, k) for c in cols] if k in strip['ckeys'] else []) for k in CKEYS},
@@ -201,6 +213,10 @@ def enc(key, v, flavour):
     """abstract descriptor value -> fresh value of the flavour"""
     if key == 'time':
         return enc_time(Fraction(v[0], v[1]))
+    if key == 'lat':
+        return float(Fraction(v[0], v[1]))
+    if key == 'phase':
+        return f'p{int(v):02d}'            # a label: string-valued in every flavour (bin_time averages numbers)
     if key == 'bins':
         return np.array2string(np.array([enc_time(Fraction(a, b)) for a, b in v]), precision=2, separator=',')
     if v == MISSING and key in MISSKEYS:
@@ -245,6 +261,10 @@ def _dec_time(x, tol_scale=1.0, what='time'):
     return fr
 
 
+class EqualityError(Exception):
+    """a value copy does not compare equal to its source"""
+
+
 class ProjectionError(Exception):
     """the real object is not well-formed / not decodable"""
 
@@ -254,7 +274,10 @@ class ProjectionError(Exception):
         self.cls = cls        # a named class of failure with its own violation key, if any
 
 
-def _frac(x, tol=1e-9, what='val'):
+def _frac(x, tol=None, what='val'):
+    """decode a float to the rational with denominator <= MAXDEN it stands for; the tolerance follows
+    the dtype of the behaviour's data (float32 data carry 24-bit means)"""
+    tol = CTX['numtol'] if tol is None else tol
     x = float(x)
     if not np.isfinite(x):
         raise ProjectionError(what, f'{x!r} is not finite')
@@ -285,12 +308,16 @@ def dec(key, v):
         return MISSING
     if key == 'time':
         return q(_dec_time(v))
+    if key == 'lat':
+        return q(_frac(v, what='lat'))
     if key == 'bins':
         s = str(v).strip()
         if not (s.startswith('[') and s.endswith(']')):
             raise ProjectionError('bins', f'bins entry {v!r}')
         nums = [x for x in re.split(r'[,\s]+', s[1:-1]) if x]
-        return [q(_dec_time(float(x), tol_scale=0.0051 / _TIMEMAP[CTX['time']][2], what='bins')) for x in nums]
+        plain = _TIMEMAP[CTX['time']][0] > 0     # offset time flavour: a small number is a 'lat' value
+        return [q(_frac(float(x), tol=0.0051, what='bins')) if (plain and float(x) < 1e4) else
+                q(_dec_time(float(x), tol_scale=0.0051 / _TIMEMAP[CTX['time']][2], what='bins')) for x in nums]
     if isinstance(v, (str, np.str_)):
         s = str(v)
         if key in MISSKEYS and s in ('nan', 'None', '<NA>', 'NaN'):
@@ -443,7 +470,7 @@ def make_source(src, flavour, layout='C', dtype='float64', timeflav=None):
           'sess': _container([enc('sess', sess(o + 1), flavour) for o in range(no)], flavour)}
     cd = {'chan': _container([enc('chan', c + 1, flavour) for c in range(nc)], flavour),
           'roi': _container([enc('roi', roi(c + 1), flavour) for c in range(nc)], flavour)}
-    if kind >= 4:
+    if kind in (4, 5):
         od['flag'] = _container([enc('flag', flag(o + 1), flavour) for o in range(no)], flavour)
         od['mark'] = _container([enc('mark', mark(o + 1), flavour) for o in range(no)], flavour)
     if dtype == 'narrow':
@@ -456,7 +483,9 @@ def make_source(src, flavour, layout='C', dtype='float64', timeflav=None):
     if timeflav is not None:
         CTX['time'] = timeflav
     td = {'time': _container([enc_time(Fraction(t + 1)) for t in range(nt)], flavour)}
-    if kind == 3:
+    if kind == 6:
+        td['lat'] = _container([float(lat(t + 1)) for t in range(nt)], flavour)
+    if kind in (3, 6):
         td['phase'] = _container([enc('phase', phase(t + 1), flavour) for t in range(nt)], flavour)
     return TemporalDataset(m, descriptors={'session': 'x'}, obs_descriptors=od, channel_descriptors=cd,
                            time_descriptors=td)
@@ -477,9 +506,9 @@ def _real_values(ob, level, key, vals, flavour, variant):
     col = list(d[key])
     out = []
     for v in vals:
-        v = [list(x) for x in v] if key == 'bins' else (list(v) if key == 'time' else v)
+        v = [list(x) for x in v] if key == 'bins' else (list(v) if key in RATKEYS else v)
         found = None
-        if key in ('time', 'bins') or variant % 2 == 1:
+        if key in ('time', 'bins', 'lat') or variant % 2 == 1:
             for x in col:
                 try:
                     if dec(key, x) == v:
@@ -496,7 +525,7 @@ def apply_event(heap, e, flavour, maxobj, scratch=None, variant=0):
     what the call returned besides the object stored in the heap, or None."""
     from rsatoolbox.data.dataset import Dataset, load_dataset, dataset_from_dict, merge_subsets
     from rsatoolbox.data.ops import merge_datasets
-    from rsatoolbox.data.computations import average_dataset_by
+    from rsatoolbox.data.computations import average_dataset_by, average_dataset
     op, o, o2, by, by2, vals = e['op'], e['o'], e['o2'], e['by'], e['by2'], list(e['vals'])
     ob = heap[o]
     new, extra = None, None
@@ -539,10 +568,14 @@ def apply_event(heap, e, flavour, maxobj, scratch=None, variant=0):
             extra = ('parts', list(parts))
             new = parts[o2 - 1]
         elif op == 'bin_time':
-            bins = [np.array(_real_values(ob, 'td', 'time', b, flavour, variant), dtype=float) for b in vals]
-            if variant % 2 == 1 and len({len(b) for b in bins}) == 1:
+            bins = [[float(x) for x in _real_values(ob, 'td', by, b, flavour, variant)] for b in vals]
+            if variant % 4 == 1 and len({len(b) for b in bins}) == 1:
                 bins = np.array(bins)          # equally long bins as one 2-d array
-            new = ob.bin_time('time', bins)
+            elif variant % 4 == 2:
+                bins = [np.array(b) for b in bins]      # list of arrays
+            elif variant % 4 == 3:
+                bins = tuple(tuple(b) for b in bins)    # nested tuples (array-like)
+            new = ob.bin_time(by, bins)                  # else: list of lists
         elif op == 'time_as_observations':
             if variant % 3 == 1:
                 new = ob.convert_to_dataset(by)
@@ -581,6 +614,8 @@ def apply_event(heap, e, flavour, maxobj, scratch=None, variant=0):
             new = dataset_from_dict(ob.to_dict())
         elif op == 'average_by':
             extra = ('avg', average_dataset_by(ob, by))
+        elif op == 'average':
+            extra = ('mean', average_dataset(ob))
         elif op == 'tensor':
             extra = ('tensor', ob.get_measurements_tensor(by))
         elif op == 'drop':
@@ -589,6 +624,13 @@ def apply_event(heap, e, flavour, maxobj, scratch=None, variant=0):
             raise ValueError(op)
     if new is not None:
         heap[free_slot(heap, maxobj)] = new
+        if op in ('copy', 'dict', 'saveload') and not any(k in ob.obs_descriptors for k in MISSKEYS) \
+                and not any(k in ob.descriptors for k in MISSKEYS):
+            # __eq__: a value copy equals its source and vice versa (NaN-valued missing entries
+            # excepted: NaN != NaN)
+            eq = (bool(new == ob), bool(ob == new))
+            if eq != (True, True):
+                raise EqualityError(f'{op}: copy == source is {eq[0]}, source == copy is {eq[1]}')
     return extra
 
 
@@ -634,6 +676,16 @@ def check_out(e, extra, out_expected):
                 return 'n', f'group {g}: n_obs {n[g]}, expected {x["n"]}'
             if avg.shape[1] != len(x['mean']) or not all(_num_eq(avg[g, c], x['mean'][c]) for c in range(len(x['mean']))):
                 return 'mean', f'group {g}: {avg[g].tolist()} expected {x["mean"]}'
+        return None
+    if op == 'average':
+        mean = np.asarray(extra[1], dtype=float)
+        mean = mean.reshape(mean.shape[0], -1)
+        if mean.shape != (len(out_expected), len(out_expected[0])):
+            return 'shape', f'average has shape {mean.shape}'
+        for c in range(mean.shape[0]):
+            for k in range(mean.shape[1]):
+                if not _num_eq(mean[c, k], out_expected[c][k]):
+                    return 'mean', f'channel {c} time {k}: {mean[c, k]} expected {out_expected[c][k]}'
         return None
     if op == 'tensor':
         ten, uniq = extra[1]
@@ -710,6 +762,8 @@ def _shape_class(pre):
 def classify_raise(e, pre, ob, ex):
     op = e['op']
     name = type(ex).__name__
+    if isinstance(ex, EqualityError):
+        return f'{op}/eq'
     if op == 'time_as_observations':
         return f'{op}/{_shape_class(pre)}/raises/{name}'
     if op == 'bin_time' and isinstance(getattr(ob, 'time_descriptors', {}).get('time'), list):
@@ -721,7 +775,7 @@ def classify_diff(e, pre, real, spec, field):
     op = e['op']
     if op == 'sort_by' and real is not None:
         by = e['by']
-        key = (lambda v: Fraction(v[0], v[1])) if by == 'time' else (lambda v: v)
+        key = (lambda v: Fraction(v[0], v[1])) if by in RATKEYS else (lambda v: v)
         rcol, scol = real['od'][by], spec['od'][by]
         items_r = sorted(zip(map(repr, real['val']), *[map(repr, real['od'][k]) for k in OKEYS if real['od'][k]]))
         items_s = sorted(zip(map(repr, spec['val']), *[map(repr, spec['od'][k]) for k in OKEYS if spec['od'][k]]))
@@ -928,7 +982,7 @@ def random_trace(rng, src, const, flavour, length, ops, scratch=None, layout='C'
                 e['o2'] = int(rng.integers(1, min(len(u), 4) + 1))
                 newghost = [ghost[o][i] for i in gs[e['o2'] - 1]]
             elif op == 'subset_time':
-                key = (lambda v: Fraction(v[0], v[1])) if e['by'] == 'time' else (lambda v: v)
+                key = (lambda v: Fraction(v[0], v[1])) if e['by'] in RATKEYS else (lambda v: v)
                 lo, hi = sorted([u[int(rng.integers(0, len(u)))], u[int(rng.integers(0, len(u)))]], key=key)
                 e['vals'] = [lo, hi]
                 newghost = [ghost[o][i] for i in range(nt) if key(lo) <= key(col[i]) <= key(hi)]
@@ -939,9 +993,10 @@ def random_trace(rng, src, const, flavour, length, ops, scratch=None, layout='C'
             if a['kind'] != 'T' or nc * nt > maxcols:
                 continue
         elif op == 'bin_time':
-            if a['kind'] != 'T' or any(k not in ('time', 'bins') for k in tkeys):
+            if a['kind'] != 'T':
                 continue
-            col = a['td']['time']
+            e['by'] = str(rng.choice([k for k in tkeys if k in RATKEYS]))
+            col = a['td'][e['by']]
             u, _ = _groups(col)
             nb = int(rng.integers(1, maxtims + 1))
             bins = []
@@ -961,7 +1016,6 @@ def random_trace(rng, src, const, flavour, length, ops, scratch=None, layout='C'
                 dens.append(int(d))
             if max(dens) > const['MaxDen']:
                 continue
-            e['by'] = 'time'
             e['vals'] = bins
         elif op == 'merge':
             o2 = int(rng.choice(sorted(heap)))
@@ -979,6 +1033,8 @@ def random_trace(rng, src, const, flavour, length, ops, scratch=None, layout='C'
             newghost = ghost[o]
         elif op in ('copy', 'saveload', 'dict'):
             newghost = ghost[o]
+        elif op == 'average':
+            pass
         elif op == 'drop':
             if len(heap) < 2:
                 continue
@@ -1009,6 +1065,10 @@ def random_trace(rng, src, const, flavour, length, ops, scratch=None, layout='C'
                 # a mean of n rows whose cells have denominators dividing 60
                 out = [{'label': dec(e['by'], uniq[g]), 'n': int(n[g]),
                         'mean': [q(_grid(x, 60 * max(int(n[g]), 1))) for x in avg[g]]} for g in range(len(uniq))]
+            elif extra is not None and extra[0] == 'mean':
+                mean = np.asarray(extra[1], dtype=float)
+                mean = mean.reshape(mean.shape[0], -1)
+                out = [[q(_grid(x, 60 * nr)) for x in row] for row in mean]
             elif extra is not None and extra[0] == 'tensor':
                 ten, uniq = extra[1]
                 out = [{'label': dec(e['by'], uniq[g]),
